@@ -20,7 +20,7 @@ import "github.com/biogo/biogo/alphabet"
 //@   ensures [count]    result == nil ==> len(s.Seq) == old(len(s.Seq)) + len(a)
 //@   ensures [old]      result == nil ==> forall c int :: 0 <= c && c < old(len(s.Seq)) ==> s.Seq[c] == old(s.Seq[c])
 //@   ensures [old-cells] forall c int, r int :: 0 <= c && c < old(len(s.Seq)) && 0 <= r && r < len(old(s.Seq[c])) ==> old(s.Seq[c])[r] == old(s.Seq[c][r])
-//@   ensures [new]      result == nil ==> forall c int, r int :: 0 <= c && c < len(a) && 0 <= r && r < len(a[c]) ==> s.Seq[old(len(s.Seq)) + c][r] == a[c][r].L
+//@   ensures [new]      result == nil ==> forall c int, r int :: old(len(s.Seq)) <= c && c < old(len(s.Seq)) + len(a) && 0 <= r && r < len(a[c - old(len(s.Seq))]) ==> s.Seq[c][r] == a[c - old(len(s.Seq))][r].L
 //@   ensures [fresh]    result == nil ==> forall c int :: old(len(s.Seq)) <= c && c < len(s.Seq) ==> fresh(s.Seq[c]) && len(s.Seq[c]) == len(s.Seq[0])
 //@   ensures [input]    forall c int, r int :: 0 <= c && c < len(a) && 0 <= r && r < len(a[c]) ==> a[c][r] == old(a[c][r])
 //@   ensures [wf]       wf(s)
@@ -32,7 +32,7 @@ import "github.com/biogo/biogo/alphabet"
 //@   loop 2 invariant 0 <= idx && idx <= len(a) && wfPrefix(s, old(len(s.Seq))) && len(s.Seq) == old(len(s.Seq)) + idx && cap(s.Seq) >= old(len(s.Seq)) + len(a)
 //@   loop 2 invariant forall c int :: 0 <= c && c < old(len(s.Seq)) ==> s.Seq[c] == old(s.Seq[c])
 //@   loop 2 invariant forall c int, r int :: 0 <= c && c < old(len(s.Seq)) && 0 <= r && r < len(old(s.Seq[c])) ==> old(s.Seq[c])[r] == old(s.Seq[c][r])
-//@   loop 2 invariant forall c int, r int :: 0 <= c && c < idx && 0 <= r && r < len(a[c]) ==> s.Seq[old(len(s.Seq)) + c][r] == a[c][r].L
+//@   loop 2 invariant forall c int, r int :: old(len(s.Seq)) <= c && c < old(len(s.Seq)) + idx && 0 <= r && r < len(a[c - old(len(s.Seq))]) ==> s.Seq[c][r] == a[c - old(len(s.Seq))][r].L
 //@   loop 2 invariant forall c int :: old(len(s.Seq)) <= c && c < len(s.Seq) ==> fresh(s.Seq[c]) && allocated(s.Seq[c]) && len(s.Seq[c]) == len(old(s.Seq[0]))
 //@   loop 2 invariant forall c int :: 0 <= c && c < len(a) ==> a[c] == old(a[c])
 //@   loop 2 invariant forall c int, r int :: 0 <= c && c < len(a) && 0 <= r && r < len(a[c]) ==> a[c][r] == old(a[c][r])
@@ -58,7 +58,7 @@ import "github.com/biogo/biogo/alphabet"
 //@   loop 2 invariant forall r int :: 0 <= r && r < len(a) ==> len(a[r]) <= max
 //@   loop 2 invariant forall c int :: 0 <= c && c < old(len(s.Seq)) ==> s.Seq[c] == old(s.Seq[c])
 //@   loop 2 invariant forall c int, r int :: 0 <= c && c < old(len(s.Seq)) && 0 <= r && r < len(old(s.Seq[c])) ==> old(s.Seq[c])[r] == old(s.Seq[c][r])
-//@   loop 2 invariant forall k int, r int :: 0 <= k && k < i && 0 <= r && r < len(a) ==> s.Seq[old(len(s.Seq)) + k][r] == (k < len(a[r]) ? a[r][k].L : gapOf(s.Alpha))
+//@   loop 2 invariant forall c int, r int :: old(len(s.Seq)) <= c && c < old(len(s.Seq)) + i && 0 <= r && r < len(a) ==> s.Seq[c][r] == (c - old(len(s.Seq)) < len(a[r]) ? a[r][c - old(len(s.Seq))].L : gapOf(s.Alpha))
 //@   loop 2 invariant forall c int :: old(len(s.Seq)) <= c && c < len(s.Seq) ==> fresh(s.Seq[c]) && allocated(s.Seq[c])
 //@   loop 2 invariant forall r int :: 0 <= r && r < len(a) ==> a[r] == old(a[r])
 //@   loop 2 invariant forall r int, k int :: 0 <= r && r < len(a) && 0 <= k && k < len(a[r]) ==> a[r][k] == old(a[r][k])
@@ -78,7 +78,7 @@ import "github.com/biogo/biogo/alphabet"
 //@   ensures [count]    result == nil ==> len(s.Seq) == old(len(s.Seq)) + len(a)
 //@   ensures [old]      result == nil ==> forall c int :: 0 <= c && c < old(len(s.Seq)) ==> s.Seq[c] == old(s.Seq[c])
 //@   ensures [old-cells] forall c int, r int :: 0 <= c && c < old(len(s.Seq)) && 0 <= r && r < len(old(s.Seq[c])) ==> old(s.Seq[c])[r] == old(s.Seq[c][r])
-//@   ensures [new]      result == nil ==> forall c int, r int :: 0 <= c && c < len(a) && 0 <= r && r < len(a[c]) ==> s.Seq[old(len(s.Seq)) + c][r] == a[c][r]
+//@   ensures [new]      result == nil ==> forall c int, r int :: old(len(s.Seq)) <= c && c < old(len(s.Seq)) + len(a) && 0 <= r && r < len(a[c - old(len(s.Seq))]) ==> s.Seq[c][r] == a[c - old(len(s.Seq))][r]
 //@   ensures [fresh]    result == nil ==> forall c int :: old(len(s.Seq)) <= c && c < len(s.Seq) ==> fresh(s.Seq[c]) && len(s.Seq[c]) == len(s.Seq[0])
 //@   ensures [input]    forall c int, r int :: 0 <= c && c < len(a) && 0 <= r && r < len(a[c]) ==> a[c][r] == old(a[c][r])
 //@   ensures [wf]       qwf(s)
@@ -91,7 +91,7 @@ import "github.com/biogo/biogo/alphabet"
 //@   loop 2 invariant 0 <= idx && idx <= len(a) && s != nil && len(s.Seq) == old(len(s.Seq)) + idx && cap(s.Seq) >= old(len(s.Seq)) + len(a) && old(len(s.Seq)) > 0
 //@   loop 2 invariant forall c int :: 0 <= c && c < old(len(s.Seq)) ==> s.Seq[c] == old(s.Seq[c])
 //@   loop 2 invariant forall c int, r int :: 0 <= c && c < old(len(s.Seq)) && 0 <= r && r < len(old(s.Seq[c])) ==> old(s.Seq[c])[r] == old(s.Seq[c][r])
-//@   loop 2 invariant forall c int, r int :: 0 <= c && c < idx && 0 <= r && r < len(a[c]) ==> s.Seq[old(len(s.Seq)) + c][r] == a[c][r]
+//@   loop 2 invariant forall c int, r int :: old(len(s.Seq)) <= c && c < old(len(s.Seq)) + idx && 0 <= r && r < len(a[c - old(len(s.Seq))]) ==> s.Seq[c][r] == a[c - old(len(s.Seq))][r]
 //@   loop 2 invariant forall c int :: old(len(s.Seq)) <= c && c < len(s.Seq) ==> fresh(s.Seq[c]) && allocated(s.Seq[c]) && len(s.Seq[c]) == len(old(s.Seq[0]))
 //@   loop 2 invariant forall c int :: 0 <= c && c < len(a) ==> a[c] == old(a[c])
 //@   loop 2 invariant forall c int, r int :: 0 <= c && c < len(a) && 0 <= r && r < len(a[c]) ==> a[c][r] == old(a[c][r])
@@ -114,8 +114,8 @@ import "github.com/biogo/biogo/alphabet"
 //@   loop 2 invariant forall r int :: 0 <= r && r < len(a) ==> len(a[r]) <= max
 //@   loop 2 invariant forall c int :: 0 <= c && c < old(len(s.Seq)) ==> s.Seq[c] == old(s.Seq[c])
 //@   loop 2 invariant forall c int, r int :: 0 <= c && c < old(len(s.Seq)) && 0 <= r && r < len(old(s.Seq[c])) ==> old(s.Seq[c])[r] == old(s.Seq[c][r])
-//@   loop 2 invariant forall k int, r int :: 0 <= k && k < i && 0 <= r && r < len(a) ==> s.Seq[old(len(s.Seq)) + k][r].L == (k < len(a[r]) ? a[r][k].L : gapOf(s.Alpha))
-//@   loop 2 invariant forall k int, r int :: 0 <= k && k < i && 0 <= r && r < len(a) && k < len(a[r]) ==> s.Seq[old(len(s.Seq)) + k][r].Q == a[r][k].Q
+//@   loop 2 invariant forall c int, r int :: old(len(s.Seq)) <= c && c < old(len(s.Seq)) + i && 0 <= r && r < len(a) ==> s.Seq[c][r].L == (c - old(len(s.Seq)) < len(a[r]) ? a[r][c - old(len(s.Seq))].L : gapOf(s.Alpha))
+//@   loop 2 invariant forall c int, r int :: old(len(s.Seq)) <= c && c < old(len(s.Seq)) + i && 0 <= r && r < len(a) && c - old(len(s.Seq)) < len(a[r]) ==> s.Seq[c][r].Q == a[r][c - old(len(s.Seq))].Q
 //@   loop 2 invariant forall c int :: old(len(s.Seq)) <= c && c < len(s.Seq) ==> fresh(s.Seq[c]) && allocated(s.Seq[c]) && arr(s.Seq[c]) != arr(b)
 //@   loop 2 invariant forall r int :: 0 <= r && r < len(a) ==> a[r] == old(a[r])
 //@   loop 2 invariant forall r int, k int :: 0 <= r && r < len(a) && 0 <= k && k < len(a[r]) ==> a[r][k] == old(a[r][k])
@@ -124,8 +124,8 @@ import "github.com/biogo/biogo/alphabet"
 //@   loop 3 invariant forall r int :: 0 <= r && r < idx ==> b[r].L == (i < len(a[r]) ? a[r][i].L : gapOf(s.Alpha))
 //@   loop 3 invariant forall r int :: 0 <= r && r < idx && i < len(a[r]) ==> b[r].Q == a[r][i].Q
 //@   loop 3 invariant forall c int :: old(len(s.Seq)) <= c && c < len(s.Seq) ==> arr(s.Seq[c]) != arr(b)
-//@   loop 3 invariant forall k int, r int :: 0 <= k && k < i && 0 <= r && r < len(a) ==> s.Seq[old(len(s.Seq)) + k][r].L == (k < len(a[r]) ? a[r][k].L : gapOf(s.Alpha))
-//@   loop 3 invariant forall k int, r int :: 0 <= k && k < i && 0 <= r && r < len(a) && k < len(a[r]) ==> s.Seq[old(len(s.Seq)) + k][r].Q == a[r][k].Q
+//@   loop 3 invariant forall c int, r int :: old(len(s.Seq)) <= c && c < old(len(s.Seq)) + i && 0 <= r && r < len(a) ==> s.Seq[c][r].L == (c - old(len(s.Seq)) < len(a[r]) ? a[r][c - old(len(s.Seq))].L : gapOf(s.Alpha))
+//@   loop 3 invariant forall c int, r int :: old(len(s.Seq)) <= c && c < old(len(s.Seq)) + i && 0 <= r && r < len(a) && c - old(len(s.Seq)) < len(a[r]) ==> s.Seq[c][r].Q == a[r][c - old(len(s.Seq))].Q
 //@   loop 3 writes fresh
 
 // Clone: a deep copy - columns and row annotations live in fresh storage, cell for cell equal.
